@@ -171,6 +171,28 @@ func execJRT(s *Sexp) string {
 			if err != nil {
 				return "err"
 			}
+			// the same bytes into destinations that must grow while the value is written: empty non-nil,
+			// tiny, half the size, behind a prefix
+			data = append([]byte(nil), data...)
+			for _, dst := range [][]byte{{}, make([]byte, 0, 16), make([]byte, 0, len(data)/2+1), append(make([]byte, 0, 3), 0x7e, 0x7e)} {
+				pre := len(dst)
+				var d2 []byte
+				switch tv := v.(type) {
+				case map[string]interface{}:
+					if len(tv) > 1 {
+						continue
+					}
+					d2, err = p.Marshal(dst, &tv)
+				case []interface{}:
+					if jHasMultiKeyMaps(tv) {
+						continue
+					}
+					d2, err = p.Marshal(dst, &tv)
+				}
+				if err != nil || !bytes.Equal(d2[pre:], data) {
+					return "buffer-differs " + hx(data) + " " + hx(d2)
+				}
+			}
 			return "ok " + hx(data)
 		case "top", "desc":
 			data, err := unhx(s.List[3].Atom)
@@ -597,4 +619,26 @@ func jToJSONModel(v interface{}) interface{} {
 		return out
 	}
 	return v
+}
+
+// jHasMultiKeyMaps: some object in the value has two or more keys (its encoding is not unique)
+func jHasMultiKeyMaps(v interface{}) bool {
+	switch tv := v.(type) {
+	case map[string]interface{}:
+		if len(tv) > 1 {
+			return true
+		}
+		for _, x := range tv {
+			if jHasMultiKeyMaps(x) {
+				return true
+			}
+		}
+	case []interface{}:
+		for _, x := range tv {
+			if jHasMultiKeyMaps(x) {
+				return true
+			}
+		}
+	}
+	return false
 }
